@@ -51,9 +51,15 @@ class Timeout(BaseException):
     """BaseException on purpose: `except Exception` in the code under test must not eat it."""
 
 
+TIMEOUTS = {"n": 0, "seconds": 0.0}     # wall-clock bounds that fired in this process (see Ctx.case)
+TIMED_OUT_INPUTS = []                     # the first few inputs on which a runner of harness/impl.py did not return
+
+
 @contextlib.contextmanager
 def time_limit(seconds):
     def handler(signum, frame):
+        TIMEOUTS["n"] += 1
+        TIMEOUTS["seconds"] += seconds
         raise Timeout()
     old = signal.signal(signal.SIGALRM, handler)
     signal.setitimer(signal.ITIMER_REAL, seconds)
@@ -179,6 +185,14 @@ class Ctx:
         if self.deadline is not None and time.time() > self.deadline:
             raise StopRun()                    # only the failing-input search sets a deadline
         self.evaluations += 1
+        self.extra["time_limits_fired"] = dict(TIMEOUTS)
+        # the unchanged tree lets at most a few (known slow) cases run into their wall-clock bound (<= 20 s in
+        # total in the quick tier); when the bounds that fired add up to minutes the implementation has
+        # stopped returning on ordinary inputs: stop exploring instead of waiting for every single bound
+        if TIMEOUTS["seconds"] > (180 if self.tier == "quick" else 14400) and self.deadline is None:
+            if not self.extra.get("stopped_on_time_limits"):
+                self.extra["stopped_on_time_limits"] = True
+                raise StopRun()
         if nontrivial:
             self.nontrivial.add(canon_hash(inp))
         if len(self.samples) < 3 or (sample_every and self.evaluations % sample_every == 0
